@@ -391,7 +391,6 @@ func (e *CEnv) tr(x *CExpr) CVal {
 		} else {
 			full = And(And(guards...), body)
 		}
-		bvars, full = v.reindexQuant(bvars, full)
 		if x.Kind == "forall" {
 			return CVal{Forall(bvars, full), types.Typ[types.Bool]}
 		}
@@ -1537,4 +1536,30 @@ func litTreeToBV(t *Term, w int) *Term {
 		return BVLitB(t.Int, w)
 	}
 	return Ite(t.Args[0], litTreeToBV(t.Args[1], w), litTreeToBV(t.Args[2], w))
+}
+
+// reindexTerm applies reindexQuant to every quantifier inside t (used for
+// assumptions only: goals keep the index arithmetic of the source so that
+// their Skolem terms match the patterns of non-reindexable hypotheses).
+func (v *Verifier) reindexTerm(t *Term) *Term {
+	if t.IsLit || !hasQuant(t) {
+		return t
+	}
+	if t.Op == "forall" || t.Op == "exists" {
+		body := v.reindexTerm(t.Args[0])
+		vars, nb := v.reindexQuant(append([]*Term(nil), t.Binders...), body)
+		return &Term{Op: t.Op, Sort: t.Sort, Binders: vars, Args: append([]*Term{nb}, t.Args[1:]...)}
+	}
+	na := make([]*Term, len(t.Args))
+	changed := false
+	for i, a := range t.Args {
+		na[i] = v.reindexTerm(a)
+		if na[i] != a {
+			changed = true
+		}
+	}
+	if !changed {
+		return t
+	}
+	return rebuild(t, na)
 }
